@@ -85,12 +85,17 @@ def c10(tier):
     jobs = []
     for kind in range(22):
         jobs.append((H('ast', 'HarnessC10Walk'), P('ast'), [[kind, sub] for sub in range(23)], {}))
+    for src, frm, to, want in [('A == B', 'B', 'F', 'A == F'), ('A - B', 'B', 'S', 'A - S'), ('A + B', 'B', 'F', 'A + F'), ('FnF(B)', 'B', 'F', 'FnF(F)'), ('Fn(B)', 'B', 'F', 'Fn(F)'),
+                               ('Xs[A:B]', 'B', 'F', 'Xs[A:F]'), ('P ? A : B', 'B', 'S', 'P ? A : S'), ('map(Xs, {# + B})', 'B', 'F', 'map(Xs, {# + F})'), ('Zz + A', 'Zz', 'B', 'B + A'),
+                               ('A in Xs', 'Xs', 'M', 'A in M'), ('S == T', 'T', 'A', 'S == A'), ('(A + B)[0:1]', 'B', 'Xs', '(A + Xs)[0:1]'), ('Xs[B:][0] == A', 'A', 'F', 'Xs[B:][0] == F'),
+                               ('count(Xs, {# == B})', 'B', 'F', 'count(Xs, {# == F})'), ('len(Xs) == B', 'B', 'I64', 'len(Xs) == I64'), ('{a: B}.a == A', 'B', 'F', '{a: F}.a == A')]:
+        jobs.append((H('.', 'HarnessC10Patched'), P('.'), None, {'params': {'src': src, 'from': frm, 'to': to, 'want': want}, 'label': 'patched %s [%s->%s]' % (src, frm, to)}))
     meta = {
-        'explanation': 'ast.Walk/walker.walk/ast.Patch executed symbolically on a root node of every kind (22) with a composite of every kind in a symbolically chosen child slot (depth 2), child slices of symbolic length 0..3, optional children symbolically nil; a recording visitor logs (event, node identity) and replaces the node at a symbolic Exit event index; compared with the event list derived from the struct declarations (field order) and with the slot contents after the walk',
+        'explanation': 'program level: compiling a source with a Patch visitor that renames an identifier (changing its static type) must give the same verdict and, for all symbolic environment values, the same results as compiling the substituted source (the patched tree is what is re-checked and compiled). AST level: ast.Walk/walker.walk/ast.Patch executed symbolically on a root node of every kind (22) with a composite of every kind in a symbolically chosen child slot (depth 2), child slices of symbolic length 0..3, optional children symbolically nil; a recording visitor logs (event, node identity) and replaces the node at a symbolic Exit event index; compared with the event list derived from the struct declarations (field order) and with the slot contents after the walk',
         'bounds': {'depth': 2, 'child slices': '0..3 elements', 'node kinds': '22 x (leaf children | one composite child of each of 22 kinds in each slot)', 'patch position': 'every Exit event (symbolic index)'},
         'outside': ['trees deeper than 2 (the recursion is the same function)', 'replacement at Enter events', 'visitors that replace a node by a subtree that is then traversed'],
         'assumptions': COMMON_ASSUME + ['the child-slot table of the harness (vfTree.build) lists every Node and []Node field of every node struct in declaration order'],
-        'must_reach': ['c10.walked', 'c10.patched'],
+        'must_reach': ['c10.walked', 'c10.patched', 'c10.patched.compiled'],
     }
     return jobs, meta
 
